@@ -13,6 +13,7 @@ EXTENDS Pipeline, Json
 
 CONSTANTS NInter,        \* number of intermediates (2 quick, 3 thorough)
           FreeSchedule,  \* TRUE: the iteration order of every dependency set is free (the design before the C09 repair)
+          ExtraLayouts,  \* component layouts beyond the four standard ones ({} or {"headed"})
           EmitMod        \* emit one case out of EmitMod (structural hash); 0 = emit none
 
 NumLexDef == [t \in {"0","1","2","3","4","5","6","7","8","0.5","0.25"} |->
@@ -52,8 +53,11 @@ Tpl(i, ds) ==
 \* "noparams": one component, no parameters block at all (degenerate shape the templates must survive)
 \* "annotated": one component, with unit / description annotations on declarations and unit comments on
 \*              assignment lines (inert for every numerical observation: C17; preserved by save/load: C11)
-CompLayouts == {"single", "split", "noparams", "annotated"}
+\* "headed": one named component holding everything (every assignment below one expressions("M") header);
+\* only the runs that name it in ExtraLayouts build it
+CompLayouts == {"single", "split", "noparams", "annotated"} \cup ExtraLayouts
 CompOf(layout, n) == IF layout \in {"single", "noparams", "annotated"} THEN ""
+                     ELSE IF layout = "headed" THEN "M"
                      ELSE IF n \in {"x", "p", "u", "c", "dx_dt", "U"} THEN "A" ELSE "B"
 
 VARIABLES deps, sched, i, layout, pc,
@@ -84,6 +88,7 @@ ModelOf(d, lo) ==
   IF lo = "single" THEN [blocks |-> BlocksFor(d, "", AllN)]
   ELSE IF lo = "noparams" THEN [blocks |-> BlocksFor(d, "", AllN \ SeqSet(Params))]
   ELSE IF lo = "annotated" THEN [blocks |-> Annot(BlocksFor(d, "", AllN))]
+  ELSE IF lo = "headed" THEN [blocks |-> BlocksFor(d, "M", AllN)]
   ELSE [blocks |-> BlocksFor(d, "A", {n \in AllN : CompOf(lo, n) = "A"})
                    \o BlocksFor(d, "B", {n \in AllN : CompOf(lo, n) = "B"})]
 
@@ -155,7 +160,16 @@ BlocksJson(bs) == IF bs = <<>> THEN <<>> ELSE
 DepCount == Cardinality(UNION {deps[n] : n \in DOMAIN deps})
 Hash == LET RECURSIVE H(_)
             H(j) == IF j > Len(Build) THEN 0 ELSE (j * 7 + 3) * (1 + Cardinality(deps[Build[j]]) + 2 * Cardinality(deps[Build[j]] \cap {"x", "q", "u"})) + H(j + 1)
-        IN H(1) + (IF layout = "single" THEN 0 ELSE IF layout = "split" THEN 5 ELSE IF layout = "noparams" THEN 11 ELSE 17)
+        IN H(1) + (IF layout = "single" THEN 0 ELSE IF layout = "split" THEN 5 ELSE IF layout = "noparams" THEN 11 ELSE IF layout = "headed" THEN 23 ELSE 17)
+\* a polynomial hash of the dependency sets themselves (Hash, sums of cardinalities, is too regular to sample with)
+RECURSIVE Pow2(_)
+Pow2(k) == IF k = 0 THEN 1 ELSE 2 * Pow2(k - 1)
+SetCode(S) == LET RECURSIVE C(_)
+                  C(T) == IF T = {} THEN 0 ELSE LET v == CHOOSE v \in T : TRUE IN Pow2(PosN(v)) + C(T \ {v})
+              IN C(S)
+Hash2 == LET RECURSIVE H(_)
+             H(j) == IF j > Len(Build) THEN 7 ELSE (H(j + 1) * 131 + SetCode(deps[Build[j]])) % 1000003
+         IN H(1)
 Expect(inp) ==
   LET den == DenAll(mi, inp) IN
   [rhs |-> DerivsByState(den), monitor |-> [n \in mi.aN |-> den[n]],
